@@ -6,7 +6,8 @@ shims).  Directives:
 
   //@include <relative path>            paste another file of /verif/contracts (prelude pieces)
   //@item file=<src> kind=<struct|enum|const|type> name=<N> [keep_attrs=1]
-        paste the item's text from /repo verbatim, minus attributes and visibility (rule E11)
+        paste the item's text from /repo verbatim, minus attributes and visibility (rule E11); in a
+        `const NAME: &T` the elided lifetime is spelled `'static` (what elision means in a constant)
   //@unit id=<ID> file=<src> fn=<[ImplHeader::]name> [ret=<name>] [rename=<new fn name>]
         ... sub-directives ...
   //@end
@@ -36,7 +37,8 @@ shims).  Directives:
                                  every str range indexing `&X[A..]` / `&X[..B]` / `&X[A..B]` (also without `&`)
                                  -> `from(X, A)` / `to(X, B)` / `range(X, A, B)`; X, A, B verbatim
   //@stubof group=<g> unit=<ID>         emit `#[verifier::external_body] <signature + contract of unit ID
-        of contracts/groups/<g>.rs> { unimplemented!() }` (payload lines = extra clauses, logged)
+        of contracts/groups/<g>.rs> { unimplemented!() }` (payload lines = extra clauses, logged; a payload
+        that starts with `requires` holds extra call-site obligations and is spliced BEFORE the contract)
   //@copyfrom file=<rel path> from=<<line prefix>> until=<<line prefix>> [until_nth=k]
         copy the hand-written lines (spec fns) of another template, from the first line starting with
         `from` up to (excluding) the k-th later line starting with `until`; no directives allowed inside
@@ -336,7 +338,8 @@ def apply_ops(unit, fn_text, log):
                 raise ExtractError('%s: edit needs find/after/before' % unit.id)
         elif kind == 'chain':
             # Method chain -> shim call.  `RECV<anchor>ARGS)<suffix>`  =>  `to(RECV, ARGS)`.
-            # RECV is the maximal postfix expression that ends where the anchor starts.
+            # RECV is the maximal postfix expression that ends where the anchor starts (a `&` / `*` that
+            # follows an operand is a binary operator and ends it: `a && RECV.m()`).
             spans = rustlex.find_tokens(s, a['find'])
             if 'argkind' in a:
                 # keep only the occurrences whose first argument token is a string / char literal
@@ -374,6 +377,14 @@ def apply_ops(unit, fn_text, log):
                             k -= 1
                         k -= 1
                         continue
+                    if t in ('&', '*') and k >= 1:
+                        # `a && RECV`, `a & RECV`, `a * RECV`: a binary operator (its left operand ends in an
+                        # identifier / literal / closing bracket), not a borrow or deref of the receiver
+                        j = k - 1
+                        if t == '&' and toks[j][0] == '&' and toks[j][2] == toks[k][1]:
+                            j -= 1
+                        if j >= 0 and ((re.match(r'^[A-Za-z_0-9"\']', toks[j][0]) and toks[j][0] not in KW) or toks[j][0] in (')', ']')):
+                            break
                     if (re.match(r'^[A-Za-z_0-9]', t) and t not in KW) or t in ('.', ':', '&', '*', '?'):
                         k -= 1
                         continue
@@ -933,6 +944,11 @@ def expand(group_path):
             sources.add(a['file'])
             s, e = find_item(src, a['kind'], a['name'])
             txt = pubify_item(strip_vis_and_attrs(src[s:e]))
+            if a['kind'] == 'const' and re.search(r'\bconst\s+\w+\s*:\s*&\s*(?!\')', txt):
+                # Rust reference, lifetime elision: "an elided lifetime in the type of a constant is 'static".
+                # Verus' macro needs it spelled out (it turns the constant into a function).
+                txt = re.sub(r'(\bconst\s+\w+\s*:\s*)&\s*(?!\')', r"\1&'static ", txt, count=1)
+                log.append({'unit': 'item:' + a['name'], 'rule': 'E11', 'what': "elided lifetime of the constant's reference type spelled `'static`"})
             # struct fields need to be visible in spec fns of the same module: keep private, fine
             first = len(out) + 1
             emit(txt)
@@ -1060,6 +1076,51 @@ def expand(group_path):
             diffs[unit.id] = ''.join(difflib.unified_diff(
                 real.splitlines(True), gen.splitlines(True),
                 'repo:' + a['file'] + '::' + fnspec, 'generated:' + unit.id, n=1))
+        elif word == 'rows':
+            # Rule TABLE: the rows `(A, B)` of a const array `const NAME: .. = &[ (A, B), ... ];` of /repo are
+            # pasted one per statement as `CALL(A, B');` where B' is B without the `||` of a
+            # zero-argument closure literal (the closure is applied: function-pointer types are outside
+            # Verus' subset). A and B are verbatim repo text; CALL comes from the template.
+            a = parse_kv(rest)
+            src = read_repo(a['file'])
+            sources.add(a['file'])
+            s0, e0 = find_item(src, 'const', a['const'])
+            item = src[s0:e0]
+            mi = rustlex.mask(item)
+            ob = mi.index('[', mi.index('='))
+            cb = rustlex.match_close(mi, ob)
+            inner, minner = item[ob + 1:cb], mi[ob + 1:cb]
+            rows, k = [], 0
+            while k < len(minner):
+                if minner[k] == '(':
+                    c = rustlex.match_close(minner, k)
+                    rows.append((inner[k + 1:c], minner[k + 1:c]))
+                    k = c + 1
+                else:
+                    k += 1
+            if not rows:
+                raise ExtractError('rows: no rows found in const %s' % a['const'])
+            first = len(out) + 1
+            for txt, mtxt in rows:
+                # split at the first top-level comma
+                depth, cpos = 0, -1
+                for q, ch in enumerate(mtxt):
+                    if ch in '([{':
+                        depth += 1
+                    elif ch in ')]}':
+                        depth -= 1
+                    elif ch == ',' and depth == 0:
+                        cpos = q
+                        break
+                if cpos < 0:
+                    raise ExtractError('rows: row without two components in %s' % a['const'])
+                left, right = txt[:cpos].strip(), txt[cpos + 1:].strip().rstrip(',').strip()
+                if right.startswith('||'):
+                    right = right[2:].strip()
+                emit('    %s(%s, %s%s);' % (a['call'], left, ' '.join(right.split()), (', ' + a['extra']) if 'extra' in a else ''))
+            units['TBL.' + a['const']] = (first, len(out), a['file'] + '::const ' + a['const'])
+            log.append({'unit': 'TBL.' + a['const'], 'rule': 'TABLE', 'what': '%d rows of const %s pasted as %s(name, applied-closure) statements' % (len(rows), a['const'], a['call'])})
+            i += 1
         elif word == 'stubof':
             # Rule SLICE-CALL (callee side): an `external_body` function that carries, textually, the
             # contract another group proves for the same statements / function of /repo.
@@ -1070,6 +1131,19 @@ def expand(group_path):
             ex_lines = extra.split('\n')
             cut = next((k for k, l in enumerate(ex_lines) if not l.strip()), len(ex_lines))
             extra, rest_txt = '\n'.join(ex_lines[:cut]) + ('\n' if cut else ''), '\n'.join(ex_lines[cut:])
+            if extra.lstrip().startswith('requires'):
+                # extra PRECONDITIONS (obligations of the calling group at the call site; they add nothing
+                # to the trusted base): `requires` must precede `ensures`, so they are spliced in front of
+                # the unit's own contract, which then must not have a `requires` of its own
+                tl = txt.split('\n')
+                if any(l.strip().startswith('requires') for l in tl):
+                    raise ExtractError('stubof %s: extra `requires` on a unit that has preconditions of its own' % a['unit'])
+                k_ens = next((k for k, l in enumerate(tl) if l.strip().startswith('ensures')), len(tl) - 1)
+                txt, extra = '\n'.join(tl[:k_ens]) + '\n' + extra + '\n'.join(tl[k_ens:]), ''
+                if not txt.endswith('\n'):
+                    txt += '\n'
+                log.append({'unit': 'stub:' + a['unit'], 'rule': 'SLICE-CALL', 'what': 'extra preconditions spliced before the contract of unit %s of group %s: %s' % (
+                    a['unit'], a['group'], ' '.join('\n'.join(ex_lines[:cut]).split())[:400])})
             emit('#[verifier::external_body]\n' + txt + extra + '{ unimplemented!() }\n' + rest_txt)
             log.append({'unit': 'stub:' + a['unit'], 'rule': 'SLICE-CALL', 'what': 'external_body stub with the contract of unit %s of group %s%s' % (
                 a['unit'], a['group'], (' + %d extra line(s): %s' % (len(extra.strip().split('\n')), ' '.join(extra.split())[:300])) if extra.strip() else '')})
